@@ -17,7 +17,10 @@ EXPLANATION = (
     "outputs are filled, setup() of the solution vector precedes the read of its size and the loop over inds is bounded by *ninds; R05.6 "
     "sum semantics - in multBasis / multBasisTranspose (row representation) every contribution of a basis column accumulates or writes a "
     "position unique to the iteration, and nowhere in the library is a sparse vector filled by bulk appends in a loop and then densified "
-    "by assignment; R05.7 the scaled and unscaled variant of an operation are exclusive alternatives. NOT "
+    "by assignment; R05.7 the scaled and unscaled variant of an operation are exclusive alternatives; R05.8 index domains by provenance - "
+    "a row exponent is looked up at an index whose domain is the rows (loop bound, vector dimension, contract of the parameter), a "
+    "column exponent at a column index; R05.9 homogeneity - a raw caller-supplied value is never added to / subtracted from a product "
+    "with an internal (scaled) LP vector on a path where scaling is being undone. NOT "
     "decided: that the solves return columns/rows of the inverse, tolerances, the row-representation algebra beyond sign/kind consistency.")
 
 C = M.CLS
@@ -37,6 +40,30 @@ def signed_kind(f, n):
             sign = -sign
         p = p.parent
     return ('row' if n.short == 'getRowScaleExp' else 'col'), sign
+
+
+def resolve_exp(f, e, depth=0):
+    """('row'|'col', sign) of an exponent expression: +-get*ScaleExp(..), or a local variable defined by one"""
+    e = strip(e)
+    if e is None or depth > 4:
+        return None
+    if e.k == 'UnaryOperator' and e.o == '-':
+        r = resolve_exp(f, e.kids[0], depth + 1)
+        return (r[0], -r[1]) if r else None
+    if e.k == 'CXXMemberCallExpr' and e.short in ('getRowScaleExp', 'getColScaleExp'):
+        return ('row' if e.short == 'getRowScaleExp' else 'col', 1)
+    if e.k == 'DeclRefExpr' and e.dk == 'local':
+        d = nearest_def(f, e.n, e)
+        return resolve_exp(f, d, depth + 1) if d is not None else None
+    return None
+
+
+def net_kind(f, arm):
+    ld = [n for n in arm.walk() if n.k == 'CallExpr' and n.short == 'spxLdexp' and len(n.args()) == 2]
+    if not ld:
+        return None
+    r = resolve_exp(f, ld[-1].args()[1])
+    return [r] if r else None
 
 
 def run(fb, rep, tier):
@@ -67,7 +94,7 @@ def run(fb, rep, tier):
         raise AnalysisBroken('only %d spxLdexp sites found in the basis queries' % k)
 
     # ------------------------------------------------------------------ R05.2 / R05.3
-    rep.rule('R05.2', 'split on the kind of basis member: column arm uses getColScaleExp, slack arm getRowScaleExp, with opposite signs', floor=9)
+    rep.rule('R05.2', 'split on the kind of basis member: column arm uses getColScaleExp, slack arm getRowScaleExp, with opposite signs', floor=8)
     rep.rule('R05.3', 'exponent looked up at number(baseId(E)) for the E of the split / at the decoded row index', floor=12)
     for f in fs:
         ordn = 0
@@ -89,8 +116,10 @@ def run(fb, rep, tier):
             col_arm, row_arm = (th, el) if m else (el, th)
             key = '%s|split#%d(%s)' % (f.short, ordn, c[:50])
             wh = '%s:%d' % (f.file, st.l)
-            ck = [signed_kind(f, n) for n in col_arm]
-            rk = [signed_kind(f, n) for n in row_arm]
+            # the net exponent applied to the result of an arm: the exponent argument of the last spxLdexp in the arm when it
+            # has one (an arm may scale its right-hand side up first and the result back afterwards), otherwise the lookup itself
+            ck = net_kind(f, st.kid('then') if m else st.kid('else')) or [signed_kind(f, n) for n in col_arm]
+            rk = net_kind(f, st.kid('else') if m else st.kid('then')) or [signed_kind(f, n) for n in row_arm]
             kinds_ok = all(k == 'col' for k, _ in ck) and all(k == 'row' for k, _ in rk)
             signs_ok = len(set(s for _, s in ck)) == 1 and len(set(s for _, s in rk)) == 1 and ck[0][1] == -rk[0][1]
             if not kinds_ok:
@@ -280,6 +309,122 @@ def run(fb, rep, tier):
                       'the branch under (%s) and the unconditional statement after it both apply %s to %s: with unscale the contribution is counted twice' % (render(n.kid('cond'))[:40], dup.short if dup else '', render(dup.obj()) if dup else ''))
     if n_if < 10:
         raise AnalysisBroken('only %d if(unscale..) statements found in the basis queries' % n_if)
+
+    # ------------------------------------------------------------------ R05.8
+    # index domain of an exponent lookup: a row exponent is looked up at a row index, a column exponent at a column index.  The
+    # provenance of the index expression decides: a loop variable is judged by its bound (numRows-like / numCols-like); number(id)
+    # and decoded basis indices are judged by R05.3; the position parameter c of getBasisInverseColReal is a row index by contract
+    rep.rule('R05.8', 'a row exponent is looked up at an index whose domain is the rows, a column exponent at one whose domain is the columns', floor=20)
+
+    def bound_space(f, e, depth=0):
+        """'row' / 'col' / None for a loop bound expression"""
+        e = strip(e)
+        if e is None or depth > 3:
+            return None
+        t = render(e)
+        if re.search(r'\bnumRows(Real)?\(\)|\bnRows\(\)', t):
+            return 'row'
+        if re.search(r'\bnumCols(Real)?\(\)|\bnCols\(\)', t):
+            return 'col'
+        if e.k == 'DeclRefExpr' and e.dk == 'local':
+            d = nearest_def(f, e.n, e)
+            return bound_space(f, d, depth + 1) if d is not None else None
+        if e.k == 'CXXMemberCallExpr' and e.short in ('dim', 'size') and e.obj() is not None:
+            o = strip(e.obj())
+            if o.k == 'DeclRefExpr':
+                for x in f.nodes:
+                    if x.k == 'VarDecl' and x.u == o.u:
+                        return bound_space(f, x.kids[0].args()[0] if x.c and x.kids[0].k == 'CXXConstructExpr' and x.kids[0].args() else None, depth + 1)
+        return None
+
+    def loop_space(f, var_u, at):
+        for a in f.ancestors(at):
+            if a.k == 'ForStmt' and a.kid('init') is not None and any(x.k == 'VarDecl' and x.u == var_u for x in a.kid('init').walk()):
+                c = strip(a.kid('cond'))
+                if c is not None and c.k == 'BinaryOperator' and c.o in ('<', '!='):
+                    return bound_space(f, c.kids[1]), render(c)
+        return None, None
+
+    def index_space(f, a, at, depth=0):
+        """(space, how) of an index expression; space None = left to R05.3 / unknown"""
+        a = strip(a)
+        t = render(a)
+        if a.k == 'DeclRefExpr' and a.dk == 'parm':
+            return 'param', 'position parameter %s' % t
+        if a.k == 'DeclRefExpr' and a.dk == 'local':
+            sp, c = loop_space(f, a.u, at)
+            if c is not None:
+                return sp, 'loop variable bounded by %s' % c
+            d = nearest_def(f, a.n, at)
+            if d is not None and depth < 3:
+                return index_space(f, d, d, depth + 1)
+            return None, 'no definition found'
+        if re.match(r'^_solver\.number\(', t):
+            return 'by-id', 'number(id): decided by the governing id-kind test (R05.3)'
+        if re.match(r'^\(?-\w+ - 1\)?$', t):
+            return 'by-id', 'decoded negative basis index (R05.3)'
+        if a.k == 'CXXMemberCallExpr' and a.short == 'index' and a.obj() is not None:
+            o = strip(a.obj())
+            for x in f.nodes:
+                if x.k == 'VarDecl' and o.k == 'DeclRefExpr' and x.u == o.u and x.c and x.kids[0].k == 'CXXConstructExpr' and x.kids[0].args():
+                    return bound_space(f, x.kids[0].args()[0]), 'index of a nonzero of %s, which has dimension %s' % (render(o), render(x.kids[0].args()[0]))
+        if a.k == 'ArraySubscriptExpr' and render(a).startswith('bind['):
+            return 'by-id', 'basis index (R05.3)'
+        return None, 'unrecognised index expression %s' % t[:40]
+    for f in fs:
+        ordn = 0
+        for n in exp_sites(f):
+            ordn += 1
+            want = 'row' if n.short == 'getRowScaleExp' else 'col'
+            sp, how = index_space(f, n.args()[0], n)
+            key = '%s|%s#%d(%s)' % (f.short, n.short, ordn, render(n.args()[0])[:30])
+            wh = '%s:%d' % (f.file, n.l)
+            if sp == 'by-id':
+                rep.ok('R05.8', key, wh, how, nontrivial=False)
+            elif sp == 'param':
+                rep.check(want == 'row' and f.short == 'getBasisInverseColReal', 'R05.8', key, wh, how + ': the c-th column of the inverse belongs to row c',
+                          '%s is looked up at the %s, which is a position in the basis, not a %s index' % (n.short, how, want))
+            elif sp is None:
+                rep.unrec('R05.8', key, wh, how)
+            else:
+                rep.check(sp == want, 'R05.8', key, wh, how, '%s is looked up at a %s whose domain is the %ss: the index is not a %s index (out of range or the wrong factor whenever the two counts differ)' % (n.short, how, sp, want))
+
+    # ------------------------------------------------------------------ R05.9
+    # homogeneity: with a scaled LP the internal row / column vectors live in the scaled space; a sum or difference of such a product
+    # and a raw element of a caller-supplied vector is only meaningful when no scaling is being undone (the element must be scaled first)
+    rep.rule('R05.9', 'no sum/difference of a raw caller-supplied value and a product with an internal (scaled) LP vector is reachable while scaling is being undone', floor=2)
+    scaled = Assume(atoms={'unscale': True, '_solver.isScaled()': True, '_realLP->isScaled()': True, 'adaptScaling': True})
+    n9 = 0
+    for f in fs:
+        ptr_params = set(pn for pn, pt in f.params if pt.endswith('*'))
+        user_vecs = set(ptr_params)
+        for x in f.nodes:
+            if x.k == 'VarDecl' and x.c and x.kids[0].k == 'CXXConstructExpr' and len(x.kids[0].args()) == 2 and render(strip(x.kids[0].args()[1])) in ptr_params:
+                user_vecs.add(x.n)
+        g = None
+        for n in f.nodes:
+            if n.k != 'BinaryOperator' or n.o not in ('+', '-') or f.in_assert(n):
+                continue
+            sides = [strip(n.kids[0]), strip(n.kids[1])]
+            internal = [s_ for s_ in sides if any(x.is_call() and x.short in ('rowVectorRealInternal', 'rowVector', 'colVector', 'colVectorRealInternal') for x in s_.walk())]
+            if not internal:
+                continue
+            other = [s_ for s_ in sides if s_ is not internal[0]][0]
+            raw = other.k in ('ArraySubscriptExpr', 'CXXOperatorCallExpr') and render(strip(other.kids[0] if other.k == 'ArraySubscriptExpr' else other.args()[0])) in user_vecs
+            n9 += 1
+            key = '%s|%s' % (f.short, render(n)[:50])
+            wh = '%s:%d' % (f.file, n.l)
+            if not raw:
+                rep.ok('R05.9', key, wh, 'the caller-supplied operand is scaled first (%s)' % render(other)[:40])
+                continue
+            if g is None:
+                g = Graph(f, scaled)
+            b = g.block_of(n)
+            reach = b is not None and b in g.reach(g.entry)
+            rep.check(not reach, 'R05.9', key, wh, 'only reachable when no scaling is undone',
+                      '%s combines the raw caller value %s with a product of an internal LP vector, and is reachable with unscale && isScaled(): the two operands live in different spaces (the value must be multiplied by 2^rowexp first)' % (render(n)[:60], render(other)[:20]))
+    if n9 < 1:
+        raise AnalysisBroken('R05.9: only %d sums of a value and an internal-vector product found' % n9)
 
 
 def nearest_def(f, name, at):
